@@ -12,6 +12,7 @@ import (
 	"bytes"
 	"fmt"
 	"math/rand"
+	"os"
 	"sort"
 	"strings"
 
@@ -362,8 +363,17 @@ func c13Cores(r *Result, rng *rand.Rand, thorough bool) {
 		steps := 500 + rng.Intn(200)
 		ffAt := steps/3 + rng.Intn(steps/3)
 		joinAt := ffAt - 10 - rng.Intn(60)
+		if joinAt < 40 {
+			joinAt = 40
+		}
 		var obs *member
 		pendingAtFF := false
+		// every other run: two joins a few steps apart (two validator sets pending at the anchor), the
+		// observer prefers an anchor that carries both, and a third change is requested after it
+		// fast-forwarded (applied on top of what core.fastForward left in core.validators)
+		double := ri%2 == 1
+		obsAt, thirdDone := -1, false
+		join1Done, join2Done := false, false
 		for s := 0; s < steps; s++ {
 			act := cl.activeMembers()
 			a, b := act[rng.Intn(len(act))], act[rng.Intn(len(act))]
@@ -373,21 +383,47 @@ func c13Cores(r *Result, rng *rand.Rand, thorough bool) {
 			if rng.Intn(3) == 0 {
 				cl.submit(a, cl.newTx())
 			}
-			if s == joinAt {
+			if s >= joinAt && !join1Done {
+				join1Done = true
+				cl.startJoin(a)
+			}
+			if double && s >= joinAt+22+(ri%3)*9 && !join2Done {
+				join2Done = true
 				cl.startJoin(a)
 			}
 			if s == joinAt+20 && n >= 4 && ri%2 == 0 {
 				cl.startLeave(cl.members[n-1])
+			}
+			if double && obs != nil && !thirdDone && s >= obsAt+25 {
+				thirdDone = true
+				if ri%4 == 1 {
+					cl.startJoin(a)
+				} else {
+					cl.startLeave(cl.members[n-1])
+				}
+				r.Inc("core_third_change_after_fast_forward", 1)
 			}
 			if s >= joinAt && obs == nil {
 				// prefer an anchor whose frame already records a change that is not yet effective
 				var src *member
 				for _, m := range act {
 					if _, f, err := m.core.GetAnchorBlockWithFrame(); err == nil {
+						pend := 0
 						for rd := range f.PeerSets {
 							if rd > f.Round {
-								src = m
+								pend++
 							}
+						}
+						if os.Getenv("DBGLATE") != "" && double && pend >= 1 {
+							ks := []int{}
+							for rd := range f.PeerSets {
+								ks = append(ks, rd)
+							}
+							sort.Ints(ks)
+							fmt.Fprintf(os.Stderr, "DBG13 run %d step %d member %d frame round %d peersets %v\n", ri, s, m.idx, f.Round, ks)
+						}
+						if pend >= 2 || (pend >= 1 && (!double || s >= joinAt+170)) {
+							src = m
 						}
 					}
 				}
@@ -420,6 +456,14 @@ func c13Cores(r *Result, rng *rand.Rand, thorough bool) {
 						}
 					}
 					obs = o
+					obsAt = s
+					npend := 0
+					for rd := range f2.PeerSets {
+						if rd > f2.Round {
+							npend++
+						}
+					}
+					r.Inc("core_fast_forwards_with_two_pending_changes", boolInt(npend >= 2))
 					obs.idx = 500
 					r.Inc("core_fast_forwards", 1)
 					r.Inc("core_fast_forwards_with_pending_change", boolInt(pendingAtFF))
